@@ -122,7 +122,7 @@ class PowA(Atom):
         self._h = hash(self._k)
 
     def __repr__(self):
-        return "(%s)^%s" % (show(self.base), self.exp)
+        return "(%s)" % show(self.base) if self.exp == 1 else "(%s)^%s" % (show(self.base), self.exp)
 
 
 def show(v):
@@ -490,15 +490,19 @@ def _mono_norm(d):
             r = rpow(sq, e / 2)
             extra = r if extra is None else extra * r
         elif isinstance(a, PowA):
+            # canonical form: the atom is the base itself (exp == 1), the power lives in the monomial exponent,
+            # so that equal bases merge and integer totals expand back into the polynomial ring
             tot = a.exp * e
             if tot.denominator == 1:
                 del d[a]
                 r = rpow(a.base, tot)
                 extra = r if extra is None else extra * r
-            elif e != 1:
+            elif a.exp != 1:
                 del d[a]
-                na = PowA(a.base, tot)
-                d[na] = d.get(na, 0) + 1
+                na = PowA(a.base, Fraction(1))
+                d[na] = d.get(na, 0) + tot
+                if d[na] == 0:
+                    del d[na]
     mono = tuple(sorted(((a, e) for a, e in d.items() if e != 0), key=lambda ae: repr(ae[0].key())))
     if extra is not None:
         return ("X", coef, mono, extra)
@@ -784,7 +788,7 @@ def rpow(r, e):
             for _ in range(n):
                 out = out * base
             return out
-    return Rat.atom(PowA(r, e))
+    return Rat({((PowA(r, Fraction(1)), e),): 1.0})
 
 
 # --------------------------------------------------------------------------
